@@ -320,7 +320,7 @@ def check_random(case, rec):
 
 
 def search_random(ctx):
-    ctx.given(_case(), ctx.n(40_000, 1_600_000))
+    ctx.given(_case(), ctx.n(40_000, 800_000))
 
 
 SUBS = [
